@@ -8,6 +8,8 @@ Clauses (site = configuration name unless stated)
                   PickAPerm: scheme == k * unifying scheme (one k > 0 over BOTH penalty vectors);
                   Borda: scheme == k * one of unifying(p=1), unifying(p=.5), induced(p=1), induced(p=.5);
                   every other leaf: True.  site = leaf class ("PickAPerm", "Borda", ...)             [D1 shows here]
+                  C14.truthful: answers True where the definition says False (over-claims);
+                  C14.truthful.denies: answers False where the definition says True
   C14.delegation  a nested configuration's answer differs from the documented rule applied to the ACTUAL answers of its
                   parts (BioConsert: all starters relevant; ParCons: the auxiliary algorithm's answer)
   C14.accept      declared relevant, yet an incomplete dataset was refused
@@ -177,9 +179,10 @@ def check_pred(case):
         else:
             exp = leaf_expected(label, scheme)
             site = LEAF_SITE.get(label, label)
-            if ans != exp and site not in seen:
-                seen.add(site)
-                fails.append({"clause": "C14.truthful", "site": site,
+            clause = "C14.truthful" if ans else "C14.truthful.denies"
+            if ans != exp and (clause, site) not in seen:
+                seen.add((clause, site))
+                fails.append({"clause": clause, "site": site,
                               "detail": {"configuration": label, "answer": ans, "expected": exp}})
     return {"fails": fails, "key": "pred|%s" % scheme, "nkeys": max(evals - 1, 0), "evals": evals, "sample": case}
 
